@@ -127,6 +127,9 @@ package main
 //@ pure
 
 // The flag variables are initialised at package initialisation (flag.Bool / flag.String return non-nil).
+//@ extern func log.Println(v []interface{}) ()
+//@ assigns nothing
+
 //@ func main() ()
 //@ assigns runFailed, prefixesFrozen, fs, foff, handledBy, synced, renamedUnsaved, any ast.CallExpr.Fun, any derive.finder.undefined, any derive.finder.derived, any derive.finder.funcNames, any derive.printer.hasContent, any derive.printer.indent, any derive.printer.w, any derive.printer.imports, any derive.typesMap.generated, any derive.typesMap.funcToTyps, any derive.typesMap.typss
 //@ requires autoname != nil && dedup != nil && prefix != nil && pluginprefix != nil
